@@ -231,7 +231,7 @@ def run(ctx):
 
     def plain_two_arg(q_):
         # (file name, explicit type) -> type: two parameters, not a generator, does not open or read anything itself
-        if not ctx.src.has_func(q_) or "Sequence" in q_ or not q_.startswith("fasta."):
+        if not ctx.src.has_func(q_) or "Sequence" in q_:
             return False
         fn_ = ctx.src.func(q_)
         if len(fn_.node.args.args + fn_.node.args.kwonlyargs) != 2:
